@@ -107,3 +107,490 @@ Definition range_spec (start stop step : Z) : list Z :=
              then (if stop <? start then (start - stop - 1) / (- step) + 1 else 0)
              else (if start <? stop then (stop - start - 1) / step + 1 else 0) in
   progression start step (Z.to_nat len).
+
+(* ------------------------------------------------------------------ part 2 *)
+(* String methods, Python 3 str semantics on ASCII text as adopted by spec.md.
+   Deliberate, documented deviations of spec.md from Python that are built in
+   here:  (i) find/index/count/startswith/endswith with start/end operate on
+   the substring S[start:end] formed by the slice conventions (spec.md "the
+   string S[start:end] has the specified prefix", "within the designated
+   substring of S"), so an empty needle is found in an empty sub-range;
+   (ii) splitlines splits at "\n" only; (iii) white space is Unicode
+   White_Space: on ASCII  \t \n \v \f \r and space;  (iv) strings are not
+   iterable; (v) parameters documented as string / int / bool reject None. *)
+Notation bytes := (list N).
+
+Definition nlen (s : bytes) : nat := length s.
+Definition word_int (z : Z) : bool := (- 9223372036854775808 <=? z) && (z <=? 9223372036854775807).
+
+(* sub occurs in s at position i *)
+Definition occurs_at (s sub : bytes) (i : nat) : bool :=
+  bytes_eqb (firstn (length sub) (skipn i s)) sub.
+(* candidate positions of sub in s, ascending *)
+Definition positions (s sub : bytes) : list nat :=
+  if Nat.leb (length sub) (length s) then seq 0 (length s - length sub + 1) else [].
+Definition find_first (s sub : bytes) : option nat := find (occurs_at s sub) (positions s sub).
+Definition find_last (s sub : bytes) : option nat := find (occurs_at s sub) (rev (positions s sub)).
+
+(* leftmost non-overlapping occurrences of a non-empty sub *)
+Fixpoint occ_scan (s sub : bytes) (cands : list nat) (next : nat) : list nat :=
+  match cands with
+  | [] => []
+  | i :: r => if Nat.leb next i && occurs_at s sub i
+              then i :: occ_scan s sub r (i + length sub)
+              else occ_scan s sub r next
+  end.
+Definition occurrences (s sub : bytes) : list nat := occ_scan s sub (positions s sub) 0.
+
+Definition count_spec (s sub : bytes) : Z :=
+  match sub with [] => Z.of_nat (length s) + 1 | _ => Z.of_nat (length (occurrences s sub)) end.
+
+(* the pieces of s between the given occurrences of a separator of length m *)
+Fixpoint cut (s : bytes) (m : nat) (occs : list nat) (from : nat) : list bytes :=
+  match occs with
+  | [] => [skipn from s]
+  | i :: r => firstn (i - from) (skipn from s) :: cut s m r (i + m)
+  end.
+(* maxsplit: None = no limit *)
+Definition limit {A} (k : option nat) (l : list A) : list A :=
+  match k with None => l | Some k => firstn k l end.
+Definition split_spec (s sep : bytes) (k : option nat) : list bytes :=
+  cut s (length sep) (limit k (occurrences s sep)) 0.
+(* rsplit is split seen from the right end *)
+Definition rsplit_spec (s sep : bytes) (k : option nat) : list bytes :=
+  rev (map (@rev N) (split_spec (rev s) (rev sep) k)).
+
+Fixpoint concat_with (sep : bytes) (parts : list bytes) : bytes :=
+  match parts with
+  | [] => []
+  | p :: r => match r with [] => p | _ => p ++ sep ++ concat_with sep r end
+  end.
+
+(* replace: the first k leftmost non-overlapping occurrences; an empty `old`
+   matches at every boundary (before each character and at the end) *)
+Fixpoint weave (s new : bytes) (k : nat) : bytes :=
+  match k with
+  | O => s
+  | S k' => match s with
+            | [] => new
+            | c :: t => new ++ c :: weave t new k'
+            end
+  end.
+Definition replace_spec (s old new : bytes) (k : option nat) : bytes :=
+  match old with
+  | [] => weave s new (match k with None => S (length s) | Some k => k end)
+  | _ => concat_with new (split_spec s old k)
+  end.
+
+Definition is_ws (c : N) : bool :=
+  (N.eqb c 9 || N.eqb c 10 || N.eqb c 11 || N.eqb c 12 || N.eqb c 13 || N.eqb c 32)%N.
+
+(* split on runs of white space; after k splits the rest of the string (from
+   the start of the next word to the very end) is the last piece *)
+Fixpoint wsplit (s : bytes) (k : option nat) (cur : bytes) (inword : bool) : list bytes :=
+  match s with
+  | [] => if inword then [rev cur] else []
+  | c :: t =>
+      if inword then
+        (if is_ws c then rev cur :: wsplit t k [] false else wsplit t k (c :: cur) true)
+      else if is_ws c then wsplit t k [] false
+      else match k with
+           | Some O => [s]
+           | Some (S k') => wsplit t (Some k') [c] true
+           | None => wsplit t None [c] true
+           end
+  end.
+Definition wsplit_spec (s : bytes) (k : option nat) : list bytes := wsplit s k [] false.
+Definition rwsplit_spec (s : bytes) (k : option nat) : list bytes :=
+  rev (map (@rev N) (wsplit_spec (rev s) k)).
+
+(* splitlines: lines end at "\n"; no empty last line *)
+Fixpoint lines (s : bytes) (keep : bool) (cur : bytes) : list bytes :=
+  match s with
+  | [] => match cur with [] => [] | _ => [rev cur] end
+  | c :: t => if N.eqb c 10
+              then rev (if keep then c :: cur else cur) :: lines t keep []
+              else lines t keep (c :: cur)
+  end.
+
+Fixpoint skip_leading (p : N -> bool) (s : bytes) : bytes :=
+  match s with [] => [] | c :: t => if p c then skip_leading p t else s end.
+Definition skip_trailing (p : N -> bool) (s : bytes) : bytes := rev (skip_leading p (rev s)).
+Definition member (set : bytes) (c : N) : bool := existsb (N.eqb c) set.
+(* chars: None = omitted -> white space; Some set -> exactly the characters of set *)
+Definition strip_pred (chars : option bytes) : N -> bool :=
+  match chars with None => is_ws | Some set => member set end.
+
+Definition starts_with (s p : bytes) : bool := bytes_eqb (firstn (length p) s) p.
+Definition ends_with (s p : bytes) : bool :=
+  Nat.leb (length p) (length s) && bytes_eqb (skipn (length s - length p) s) p.
+
+Definition upper_c (c : N) : bool := (N.leb 65 c && N.leb c 90)%N.
+Definition lower_c (c : N) : bool := (N.leb 97 c && N.leb c 122)%N.
+Definition cased_c (c : N) : bool := upper_c c || lower_c c.
+Definition digit_c (c : N) : bool := (N.leb 48 c && N.leb c 57)%N.
+Definition up (c : N) : N := if lower_c c then (c - 32)%N else c.
+Definition down (c : N) : N := if upper_c c then (c + 32)%N else c.
+
+(* title case: a cased character is upper case exactly when it starts a word
+   (is not preceded by a cased character) *)
+Fixpoint title_map (prev_cased : bool) (s : bytes) : bytes :=
+  match s with
+  | [] => []
+  | c :: t => (if cased_c c then (if prev_cased then down c else up c) else c) :: title_map (cased_c c) t
+  end.
+Fixpoint title_ok (prev_cased : bool) (s : bytes) : bool :=
+  match s with
+  | [] => true
+  | c :: t => (if cased_c c then Bool.eqb (upper_c c) (negb prev_cased) else true) && title_ok (cased_c c) t
+  end.
+Definition nonempty_all (p : N -> bool) (s : bytes) : bool :=
+  match s with [] => false | _ => forallb p s end.
+
+(* --- argument conventions *)
+(* optional [start [, end]] operands *)
+Definition opt_range (rest : list val) : option (arg * arg) :=
+  match rest with
+  | [] => Some (ANone, ANone)
+  | [a] => Some (to_arg a, ANone)
+  | [a; b] => Some (to_arg a, to_arg b)
+  | _ => None
+  end.
+(* S[start:end] and its offset *)
+Definition sub_of (s : bytes) (r : arg * arg) : option (nat * bytes) :=
+  match subrange (Z.of_nat (length s)) (fst r) (snd r) with
+  | Some (a, b) => Some (Z.to_nat a, firstn (Z.to_nat (b - a)) (skipn (Z.to_nat a) s))
+  | None => None
+  end.
+(* optional count / maxsplit: negative = no limit; must be a machine-word int *)
+Definition opt_count (rest : list val) : option (option nat) :=
+  match rest with
+  | [] => Some None
+  | [VInt z] => if word_int z then Some (if z <? 0 then None else Some (Z.to_nat z)) else None
+  | _ => None
+  end.
+Definition strs (l : list bytes) : val := VList (map VStr l).
+Definition elems_of (v : val) : option (list val) :=
+  match v with VList l | VTuple l => Some l | _ => None end.
+
+Inductive smeth :=
+| SCount | SFind | SRfind | SIndex | SRindex | SStartswith | SEndswith
+| SSplit | SRsplit | SSplitlines | SPartition | SRpartition
+| SStrip | SLstrip | SRstrip | SReplace | SJoin | SRemoveprefix | SRemovesuffix
+| SUpper | SLower | SCapitalize | STitle
+| SIsalnum | SIsalpha | SIsdigit | SIslower | SIsupper | SIsspace | SIstitle.
+
+Definition spec_find (s : bytes) (args : list val) (last strict : bool) : option val :=
+  match args with
+  | VStr sub :: rest =>
+      match opt_range rest with
+      | Some r =>
+          match sub_of s r with
+          | Some (off, t) =>
+              match (if last then find_last t sub else find_first t sub) with
+              | Some i => Some (VInt (Z.of_nat (off + i)))
+              | None => if strict then None else Some (VInt (-1))
+              end
+          | None => None
+          end
+      | None => None
+      end
+  | _ => None
+  end.
+
+(* any of the candidates, tried in order; a non-string candidate is an error when reached *)
+Fixpoint any_affix (f : bytes -> bytes -> bool) (t : bytes) (l : list val) : option val :=
+  match l with
+  | [] => Some (VBool false)
+  | VStr p :: r => if f t p then Some (VBool true) else any_affix f t r
+  | _ => None
+  end.
+Definition spec_affix (s : bytes) (args : list val) (f : bytes -> bytes -> bool) : option val :=
+  match args with
+  | x :: rest =>
+      match opt_range rest with
+      | Some r =>
+          match sub_of s r with
+          | Some (_, t) =>
+              match x with
+              | VStr p => Some (VBool (f t p))
+              | VTuple l => any_affix f t l
+              | _ => None
+              end
+          | None => None
+          end
+      | None => None
+      end
+  | [] => None
+  end.
+
+Definition spec_split (s : bytes) (args : list val) (right : bool) : option val :=
+  let go (sep : option bytes) (rest : list val) : option val :=
+      match opt_count rest with
+      | None => None
+      | Some k =>
+          match sep with
+          | None => Some (strs (if right then rwsplit_spec s k else wsplit_spec s k))
+          | Some [] => None
+          | Some sep => Some (strs (if right then rsplit_spec s sep k else split_spec s sep k))
+          end
+      end in
+  match args with
+  | [] => go None []
+  | VNone :: rest => go None rest
+  | VStr sep :: rest => go (Some sep) rest
+  | _ => None
+  end.
+
+Definition spec_partition (s : bytes) (args : list val) (right : bool) : option val :=
+  match args with
+  | [VStr []] => None
+  | [VStr sep] =>
+      match (if right then find_last s sep else find_first s sep) with
+      | Some i => Some (VTuple [VStr (firstn i s); VStr sep; VStr (skipn (i + length sep) s)])
+      | None => Some (if right then VTuple [VStr []; VStr []; VStr s] else VTuple [VStr s; VStr []; VStr []])
+      end
+  | _ => None
+  end.
+
+Definition spec_strip (s : bytes) (args : list val) (left right : bool) : option val :=
+  let go (chars : option bytes) :=
+      let p := strip_pred chars in
+      let s := if left then skip_leading p s else s in
+      Some (VStr (if right then skip_trailing p s else s)) in
+  match args with
+  | [] => go None
+  | [VStr set] => go (Some set)
+  | _ => None
+  end.
+
+Fixpoint all_strs (l : list val) : option (list bytes) :=
+  match l with
+  | [] => Some []
+  | VStr s :: r => match all_strs r with Some rs => Some (s :: rs) | None => None end
+  | _ => None
+  end.
+
+Definition no_args (args : list val) (r : val) : option val := match args with [] => Some r | _ => None end.
+
+Definition spec_string_method (m : smeth) (s : bytes) (args : list val) : option val :=
+  match m with
+  | SCount =>
+      match args with
+      | VStr sub :: rest =>
+          match opt_range rest with
+          | Some r => match sub_of s r with Some (_, t) => Some (VInt (count_spec t sub)) | None => None end
+          | None => None
+          end
+      | _ => None
+      end
+  | SFind => spec_find s args false false
+  | SRfind => spec_find s args true false
+  | SIndex => spec_find s args false true
+  | SRindex => spec_find s args true true
+  | SStartswith => spec_affix s args starts_with
+  | SEndswith => spec_affix s args ends_with
+  | SSplit => spec_split s args false
+  | SRsplit => spec_split s args true
+  | SSplitlines =>
+      match args with
+      | [] => Some (strs (lines s false []))
+      | [VBool keep] => Some (strs (lines s keep []))
+      | _ => None
+      end
+  | SPartition => spec_partition s args false
+  | SRpartition => spec_partition s args true
+  | SStrip => spec_strip s args true true
+  | SLstrip => spec_strip s args true false
+  | SRstrip => spec_strip s args false true
+  | SReplace =>
+      match args with
+      | VStr old :: VStr new :: rest =>
+          match opt_count rest with
+          | Some k => Some (VStr (replace_spec s old new k))
+          | None => None
+          end
+      | _ => None
+      end
+  | SJoin =>
+      match args with
+      | [v] => match elems_of v with
+               | Some l => match all_strs l with Some ps => Some (VStr (concat_with s ps)) | None => None end
+               | None => None
+               end
+      | _ => None
+      end
+  | SRemoveprefix =>
+      match args with
+      | [VStr p] => Some (VStr (if starts_with s p then skipn (length p) s else s))
+      | _ => None
+      end
+  | SRemovesuffix =>
+      match args with
+      | [VStr p] => Some (VStr (if ends_with s p then firstn (length s - length p) s else s))
+      | _ => None
+      end
+  | SUpper => no_args args (VStr (map up s))
+  | SLower => no_args args (VStr (map down s))
+  | SCapitalize => no_args args (VStr (match s with [] => [] | c :: t => up c :: map down t end))
+  | STitle => no_args args (VStr (title_map false s))
+  | SIsalnum => no_args args (VBool (nonempty_all (fun c => cased_c c || digit_c c) s))
+  | SIsalpha => no_args args (VBool (nonempty_all cased_c s))
+  | SIsdigit => no_args args (VBool (nonempty_all digit_c s))
+  | SIslower => no_args args (VBool (existsb cased_c s && negb (existsb upper_c s)))
+  | SIsupper => no_args args (VBool (existsb cased_c s && negb (existsb lower_c s)))
+  | SIsspace => no_args args (VBool (nonempty_all is_ws s))
+  | SIstitle => no_args args (VBool (existsb cased_c s && title_ok false s))
+  end.
+
+(* ------------------------------------------------------------------ part 3 *)
+(* list methods: result and the list afterwards *)
+Inductive slmeth := SLAppend | SLClear | SLExtend | SLIndex | SLInsert | SLPop | SLRemove.
+
+Fixpoint first_eq (xs : list val) (v : val) (i : nat) : option nat :=
+  match xs with
+  | [] => None
+  | x :: r => if val_eqb x v then Some i else first_eq r v (S i)
+  end.
+
+(* insert position: n added to a negative i, then truncated to [0, n] *)
+Definition insert_pos (n i : Z) : nat :=
+  let i := if i <? 0 then i + n else i in
+  Z.to_nat (if i <? 0 then 0 else if i >? n then n else i).
+
+Definition spec_list_method (m : slmeth) (xs : list val) (args : list val) : option (val * list val) :=
+  let n := Z.of_nat (length xs) in
+  match m with
+  | SLAppend => match args with [x] => Some (VNone, xs ++ [x]) | _ => None end
+  | SLClear => match args with [] => Some (VNone, []) | _ => None end
+  | SLExtend => match args with
+                | [v] => match elems_of v with Some l => Some (VNone, xs ++ l) | None => None end
+                | _ => None end
+  | SLIndex =>
+      match args with
+      | v :: rest =>
+          match opt_range rest with
+          | Some r =>
+              match subrange n (fst r) (snd r) with
+              | Some (a, b) =>
+                  match first_eq (firstn (Z.to_nat (b - a)) (skipn (Z.to_nat a) xs)) v 0 with
+                  | Some i => Some (VInt (a + Z.of_nat i), xs)
+                  | None => None
+                  end
+              | None => None
+              end
+          | None => None
+          end
+      | [] => None
+      end
+  | SLInsert =>
+      match args with
+      | [VInt i; x] =>
+          if word_int i then
+            let p := insert_pos n i in Some (VNone, firstn p xs ++ x :: skipn p xs)
+          else None
+      | _ => None
+      end
+  | SLPop =>
+      let pop (i : Z) :=
+          if (- n <=? i) && (i <? n) then
+            let j := Z.to_nat (if i <? 0 then n + i else i) in
+            match nth_error xs j with
+            | Some x => Some (x, firstn j xs ++ skipn (S j) xs)
+            | None => None
+            end
+          else None in
+      match args with
+      | [] => pop (-1)
+      | [VInt i] => pop i
+      | _ => None
+      end
+  | SLRemove =>
+      match args with
+      | [v] => match first_eq xs v 0 with
+               | Some i => Some (VNone, firstn i xs ++ skipn (S i) xs)
+               | None => None
+               end
+      | _ => None
+      end
+  end.
+
+Inductive sbfun := SBReversed | SBZip | SBEnumerate | SBAny | SBAll.
+
+Fixpoint all_elems (args : list val) : option (list (list val)) :=
+  match args with
+  | [] => Some []
+  | v :: r => match elems_of v, all_elems r with
+              | Some l, Some ls => Some (l :: ls)
+              | _, _ => None
+              end
+  end.
+(* zip by transposition: stop as soon as one column is exhausted *)
+Fixpoint heads (cols : list (list val)) : option (list val) :=
+  match cols with
+  | [] => Some []
+  | [] :: _ => None
+  | (x :: _) :: r => match heads r with Some hs => Some (x :: hs) | None => None end
+  end.
+Fixpoint transpose (fuel : nat) (cols : list (list val)) : list val :=
+  match fuel with
+  | O => []
+  | S f => match cols with
+           | [] => []
+           | _ => match heads cols with
+                  | Some hs => VTuple hs :: transpose f (map (@tl val) cols)
+                  | None => []
+                  end
+           end
+  end.
+Definition shortest (cols : list (list val)) : nat :=
+  match cols with [] => O | c :: r => fold_left (fun m c' => Nat.min m (length c')) r (length c) end.
+
+Definition spec_builtin (f : sbfun) (args : list val) : option val :=
+  match f with
+  | SBReversed => match args with [v] => option_map (fun l => VList (rev l)) (elems_of v) | _ => None end
+  | SBZip => match all_elems args with
+             | Some cols => Some (VList (transpose (shortest cols) cols))
+             | None => None end
+  | SBEnumerate =>
+      let go v (start : Z) :=
+          match elems_of v with
+          | Some l => Some (VList (map (fun p => VTuple [VInt (start + Z.of_nat (fst p)); snd p])
+                                       (combine (seq 0 (length l)) l)))
+          | None => None
+          end in
+      match args with
+      | [v] => go v 0
+      | [v; VInt start] => if word_int start then go v start else None
+      | _ => None
+      end
+  | SBAny => match args with [v] => option_map (fun l => VBool (existsb truth l)) (elems_of v) | _ => None end
+  | SBAll => match args with [v] => option_map (fun l => VBool (forallb truth l)) (elems_of v) | _ => None end
+  end.
+
+(* repetition: n <= 0 gives the empty sequence; the implementation limit of
+   2^30 elements is part of the contract ("excessive repeat") *)
+Fixpoint times {A} (n : nat) (xs : list A) : list A := match n with O => [] | S k => xs ++ times k xs end.
+Definition repeat_spec {A} (xs : list A) (n : Z) : option (list A) :=
+  if n <=? 0 then Some []
+  else match xs with
+       | [] => Some []
+       | _ => if Z.of_nat (length xs) * n <? 1073741824 then Some (times (Z.to_nat n) xs) else None
+       end.
+
+Definition spec_star (x y : val) : option val :=
+  match x, y with
+  | VStr s, VInt n | VInt n, VStr s => option_map VStr (repeat_spec s n)
+  | VBytes s, VInt n | VInt n, VBytes s => option_map VBytes (repeat_spec s n)
+  | VList l, VInt n | VInt n, VList l => option_map VList (repeat_spec l n)
+  | VTuple l, VInt n | VInt n, VTuple l => option_map VTuple (repeat_spec l n)
+  | _, _ => None
+  end.
+Definition spec_plus (x y : val) : option val :=
+  match x, y with
+  | VStr a, VStr b => Some (VStr (a ++ b))
+  | VBytes a, VBytes b => Some (VBytes (a ++ b))
+  | VList a, VList b => Some (VList (a ++ b))
+  | VTuple a, VTuple b => Some (VTuple (a ++ b))
+  | _, _ => None
+  end.
